@@ -288,7 +288,10 @@ def check_loading(seq, how):
         c = g.get(n)
         if c is None or tuple(c.Plugin.version) != vs[-1]:
             raise Violation("C16:get-unversioned", f"get({n!r}) -> {c!r}", f"class of newest version {vs[-1]}")
-        for how_, cu in (("get", c), ("getitem", g[n])):
+        # asking again with the version-less class itself states no version either
+        for how_, cu in (("get", c), ("getitem", g[n]), ("get-of-get", g.get(c)), ("getitem-of-get", g[c])):
+            if cu is None or tuple(cu.Plugin.version) != vs[-1]:
+                raise Violation("C16:get-unversioned", f"{how_}({n!r}) -> {cu!r}", f"class of newest version {vs[-1]}")
             for form, bases in _base_forms(cu):
                 try:
                     _PM("Sub", bases, {})
@@ -491,14 +494,22 @@ def run_shard(shard, tier, seed, rec):
                 except TypeError as e:
                     rec.fail("C16:versioned-class-not-subclassable", dict(kind="installed", group=grp.name, name=ref.name),
                              str(e), "allowed")
-                for c in (cu, cg):
+                chained = [("chained", grp.get(cu)), ("chained", grp[cu])]  # looked up again with the version-less class
+                fields = getattr(cu, "Fields", None)
+                if fields is not None:  # schemas: the defining class of each field, reached through the version-less class
+                    for fname in list(getattr(cu, "__fields__", {})):
+                        org = getattr(getattr(fields, fname, None), "origin", None)
+                        if isinstance(org, type) and getattr(org, "Plugin", None) is not None:
+                            chained.append(("field-origin", org))
+                for route, c in (("", cu), ("", cg), *chained):
                     try:
                         meta("SubU", (c,), {"__module__": __name__})
                     except TypeError:
                         rec.case(nt_key=("undef", grp.name, ref.name), classes=["undef_version_subclass_refused"],
                                  sample=dict(kind="installed", group=grp.name, name=ref.name, version=v))
                     else:
-                        rec.fail("C16:undef-version-subclassable", dict(kind="installed", group=grp.name, name=ref.name),
+                        rec.fail("C16:undef-version-subclassable" + (":" + route if route else ""),
+                                 dict(kind="installed", group=grp.name, name=ref.name, route=route),
                                  "subclass created", "TypeError")
                 # nested: class statement form
                 try:
